@@ -85,17 +85,38 @@ def coq_files():
     return fs
 
 
-def grep_gate():
-    """Reject forbidden vernacular anywhere in the development. Returns list of offences."""
+def closure(vfile):
+    """.v files (relative to coq/) that vfile transitively Requires from this development (AV.*)."""
+    seen, todo = [], [vfile]
+    while todo:
+        f = todo.pop()
+        if f in seen or not os.path.exists(os.path.join(COQ, f)):
+            continue
+        seen.append(f)
+        src = strip_comments(open(os.path.join(COQ, f)).read())
+        for m in re.finditer(r"(?:From\s+(\S+)\s+)?Require\s+(?:Import\s+|Export\s+)?(.*?)\.(?=\s|$)", src, re.S):
+            if m.group(1) not in (None, "AV"):
+                continue
+            for name in m.group(2).split():
+                if name.startswith("AV."):
+                    name = name[3:]
+                cand = name.replace(".", "/") + ".v"
+                if os.path.exists(os.path.join(COQ, cand)):
+                    todo.append(cand)
+    return seen
+
+
+def grep_gate(vfile=None):
+    """Reject forbidden vernacular in the closure of vfile (or the whole development). Returns offences."""
     bad = []
-    for f in coq_files():
+    for f in (closure(vfile) if vfile else coq_files()):
         src = strip_comments(open(os.path.join(COQ, f)).read())
         for m in FORBIDDEN.finditer(src):
             bad.append(f"{f}: {m.group(0)}")
         depth = 0
         for line in src.splitlines():
             s = line.strip()
-            if re.match(r"Section\b", s): depth += 1
+            if re.match(r"(Section|Module)\b", s) and not re.match(r"Module\s+(Import|Export)\b", s): depth += 1
             elif re.match(r"End\b", s) and depth: depth -= 1
             elif depth == 0 and re.match(r"(Variable|Variables|Hypothesis|Hypotheses|Context)\b", s):
                 bad.append(f"{f}: top-level {s.split()[0]}")
@@ -245,7 +266,8 @@ class Check:
         Returns the list of broken obligation names ([] if all discharged)."""
         vfile = vfile or f"Props/{self.pid}.v"
         thms, pas = parse_props(vfile)
-        bad = grep_gate()
+        bad = grep_gate(vfile)
+        self.closure_files = closure(vfile)
         if bad:
             self.obligation("grep_gate", False, "; ".join(bad[:20]))
         vo = vfile[:-2] + ".vo"
